@@ -36,6 +36,12 @@ func genSchemaCase(rt *rapid.T) schemaCase {
 			}
 		}
 	}
+	// a bare function result (= %Vector int) is refused by the kernel, but the parser and the printer know it
+	for _, c := range s.Combs {
+		if c.IsFunc && c.FuncResult != nil && c.FuncResult.Kind == "ref" && rapid.IntRange(0, 5).Draw(rt, "bareresult") == 0 {
+			c.FuncResult.Bare = true
+		}
+	}
 	return schemaCase{Schema: s, Layout: schemagen.Layout{Seed: rapid.Uint64().Draw(rt, "layout"), Level: rapid.IntRange(0, 1).Draw(rt, "level")}}
 }
 
